@@ -294,7 +294,10 @@ def _dict(eng, args, kwargs, node):
             d.update(src)
         else:
             for kv in eng.iterate_concrete(src):
-                k, v = eng.iterate_concrete(kv)
+                pair = eng.iterate_concrete(kv)
+                if len(pair) != 2:
+                    raise PyRaise('ValueError', 'dictionary update sequence element has length %d; 2 is required' % len(pair), node=node)
+                k, v = pair
                 d[eng.hashable(k)] = v
     d.update(kwargs)
     return d
